@@ -271,6 +271,10 @@ var nameClasses = [][]string{
 	{"/media/alice/USB DISK/file.txt", "/mnt/backup/file"},
 	{"/var/lib/app/cache-1000/x", "/etc/group.1000", "/boot/vmlinuz-6.5.0-14-generic"},
 	{"/home/alice/.mozilla/firefox/abcd1234.default/prefs.js", "/run/user/1000/at-spi/bus_0"},
+	// other architectures than the ones @{arch} / @{multiarch} list, versions, locales, device numbers
+	{"/opt/jdk-21-aarch64/lib/libjvm.so", "/usr/lib/jvm/java-17-openjdk-arm64/bin/java", "/usr/bin/qemu-system-aarch64", "/usr/lib/aarch64-linux-gnu/libc.so.6"},
+	{"/usr/lib/riscv64-linux-gnu/libm.so.6", "/opt/app/ppc64le/bin/tool", "/usr/lib/arm-linux-gnueabihf/libz.so.1", "/opt/x86/app", "/opt/app-amd64.d/conf"},
+	{"/usr/lib/python3.11/site-packages/x.py", "/usr/share/app/en_US.UTF-8/msg", "/var/lib/app/v1.2.3/db", "/dev/pts/3", "/dev/tty1", "/dev/nvme0n1p2"},
 }
 
 func renderRuleRecord(t ruleTuple, n int, variant int) (line string, want map[string]any, name string) {
@@ -397,7 +401,7 @@ func checkC16(e *Env, r *Report) {
 		r.Fatal = err.Error()
 		return
 	}
-	res, err := e.RunTLC(TLCOpts{Module: "MC_LogFields", Workers: 8, Timeout: 20 * time.Minute, Env: map[string]string{"VERIF_FIELDS_LEN": "1"}})
+	res, err := e.RunTLC(TLCOpts{Module: "MC_LogFields", Workers: 8, Timeout: 20 * time.Minute, Env: map[string]string{"VERIF_FIELDS_LEN": "1", "VERIF_HIST_LEN": map[bool]string{false: "3", true: "4"}[e.Tier == "thorough"]}})
 	if err != nil {
 		r.Fatal = err.Error()
 		return
@@ -435,6 +439,7 @@ func checkC16(e *Env, r *Report) {
 		want map[string]any
 		name string
 		t    ruleTuple
+		hist string
 	}
 	pend := []pending{}
 	flush := func() {
@@ -509,10 +514,44 @@ func checkC16(e *Env, r *Report) {
 			if str(pd.want["kind"]) != "file" && str(pd.want["kind"]) != "link" {
 				id = fmt.Sprintf("%s|%s", pd.t.Cls, pd.t.Verdict)
 			}
+			if pd.hist != "" {
+				id = pd.hist + "|" + pd.t.Mask + "|" + pd.name
+			}
 			recs = append(recs, map[string]any{"ev": "cover", "id": id, "want": pd.want, "rules": rules})
 		}
 		batch, pend = nil, nil
 	}
+	// histories: several records of one profile (a rule built from one record must not be altered
+	// by the merging of another record into a rule that shares storage with it)
+	hists := res.PrintsWithPrefix("BEHH")
+	if e.Tier != "thorough" && len(hists) > 1500 {
+		rng.Shuffle(len(hists), func(i, j int) { hists[i], hists[j] = hists[j], hists[i] })
+		hists = hists[:1500]
+	}
+	nHist := 0
+	for hi, h := range hists {
+		var seq []struct {
+			P    int    `json:"p"`
+			Mask string `json:"mask"`
+		}
+		if err := json.Unmarshal([]byte(h), &seq); err != nil {
+			r.Fatal = "bad BEHH"
+			return
+		}
+		for _, it := range seq {
+			t := ruleTuple{Cls: "file:open", Mask: it.Mask, Verdict: "ALLOWED", Own: false, NameClass: 6}
+			line, want, name := renderRuleRecord(t, 100000+hi, it.P)
+			batch = append(batch, line)
+			pend = append(pend, pending{want: want, name: name, t: t})
+		}
+		for i := range pend {
+			pend[i].hist = fmt.Sprintf("hist:%s", h)
+		}
+		flush()
+		nHist++
+	}
+	r.Coverage["record_histories"] = nHist
+	nWant += len(recs)
 	n := 0
 	for _, t := range tuples {
 		if len(recs)+len(pend) >= nWant {
@@ -528,7 +567,7 @@ func checkC16(e *Env, r *Report) {
 		}
 		seenLine[key] = true
 		batch = append(batch, line)
-		pend = append(pend, pending{want, name, t})
+		pend = append(pend, pending{want: want, name: name, t: t})
 		if len(batch) >= 40 {
 			flush()
 		}
